@@ -14,7 +14,41 @@ SOURCES = ['src/transform/estimation/FindRigidTransformationBySVD.cpp',
            'src/pointset/algorithms/PreconditionedPointSet.cpp',
            'src/pointset/algorithms/PointSetPreconditioner.cpp',
            'src/pointset/algorithms/Correspondence.cpp']
-PROOF_MODULES = ['RomeaProofs.Properties.C04']
+PROOF_MODULES = ['RomeaProofs.Properties.C04', 'RomeaProofs.Bridge.C04', 'RomeaProofs.Bridge.C04Cor']
+
+# ------------------------------------------------------------------ stage G: the anchored functions themselves, translated (DESIGN.md 2.5b)
+_PT = [('v2d', 'Eigen::Matrix<double, 2, 1, 0>'), ('v3d', 'Eigen::Matrix<double, 3, 1, 0>'),
+       ('h3d', 'romea::core::HomogeneousCoordinates3<double>')]
+_SVD = 'FindRigidTransformationBySVD'
+_PPS = 'PreconditionedPointSet'
+BRIDGE_SPEC = {
+    'id': 'C04',
+    'sources': ['src/transform/estimation/FindRigidTransformationBySVD.cpp', 'src/pointset/algorithms/PreconditionedPointSet.cpp'],
+    'dyn_sizes': True,
+    'range_for': True,      # `mean()` of EigenContainers.hpp: `for (auto point : points)` is a structural recursion on the list of points
+    'oracle_classes': {'JacobiSVD': {'methods': {'singularValues': ['(min {r0} {c0})'], 'matrixU': ['{r0}', '(min {r0} {c0})'],
+                                                 'matrixV': ['{c0}', '(min {r0} {c0})']}}},
+    'functions':
+        [{'cxx': _SVD + '::estimate_', 'record': '%s<%s>' % (_SVD, t), 'sig': 'Correspondence> &)', 'suffix': '_corr_' + s_} for s_, t in _PT] +
+        [{'cxx': _SVD + '::estimate_', 'record': '%s<%s>' % (_SVD, t), 'nosig': 'Correspondence', 'suffix': '_all_' + s_} for s_, t in _PT] +
+        [{'cxx': _SVD + '::find', 'record': '%s<%s>' % (_SVD, t), 'sig': '(const PointSet<%s> &, const PointSet<%s> &, const std::vector<Correspondence> &)' % (t, t),
+          'suffix': '_corr_' + s_} for s_, t in _PT] +
+        [{'cxx': _SVD + '::find', 'record': '%s<%s>' % (_SVD, t), 'sig': '(const PointSet<%s> &, const PointSet<%s> &)' % (t, t),
+          'suffix': '_all_' + s_} for s_, t in _PT] +
+        [{'cxx': _SVD + '::find', 'record': '%s<%s>' % (_SVD, t), 'sig': 'PreconditionedPointSetType &, const std::vector<Correspondence> &)',
+          'suffix': '_pre_corr_' + s_} for s_, t in _PT] +
+        [{'cxx': _SVD + '::find', 'record': '%s<%s>' % (_SVD, t), 'sig': 'PreconditionedPointSetType &)',
+          'suffix': '_pre_all_' + s_} for s_, t in _PT] +
+        [{'cxx': _PPS + '::allocate_', 'record': '%s<%s>' % (_PPS, t), 'suffix': '_' + s_} for s_, t in _PT] +
+        [{'cxx': _PPS + '::compute', 'record': '%s<%s>' % (_PPS, t), 'sig': 'Scalar &)', 'suffix': '_scale_' + s_} for s_, t in _PT] +
+        [{'cxx': _PPS + '::compute', 'record': '%s<%s>' % (_PPS, t), 'sig': 'TranslationVector &)', 'suffix': '_affine_' + s_} for s_, t in _PT] +
+        [{'cxx': _PPS + '::PreconditionedPointSet', 'record': '%s<%s>' % (_PPS, t), 'sig': 'void ()', 'suffix': '_' + s_} for s_, t in _PT],
+}
+
+
+def regen(ctx):
+    import bridge
+    return bridge.regen_bridge(ctx, BRIDGE_SPEC)
 TRUSTED = ['Eigen::JacobiSVD satisfies the contract IsSVD (U, V orthogonal, S non-negative descending, A = U S V^T): '
            'monitored at run time by harness/c04.cpp on every matrix the estimator decomposes, not proved',
            'harness/c04.cpp evaluates the probe quantities (orthonormality, determinant, residuals, an independent '
